@@ -266,8 +266,20 @@ class BitInterp(object):
             raise self.err('conditional over non-integers', e)
         if isinstance(e, ast.Compare):
             return self.cond(e, env)
-        if isinstance(e, ast.Tuple):
+        if isinstance(e, (ast.Tuple, ast.List)):
             return Seq([self.ev(x, env) for x in e.elts])
+        if isinstance(e, (ast.ListComp, ast.GeneratorExp)) and \
+                len(e.generators) == 1 and not e.generators[0].ifs and \
+                isinstance(e.generators[0].target, ast.Name) and \
+                isinstance(e.generators[0].iter, (ast.Tuple, ast.List)):
+            # a comprehension over a literal sequence: that many evaluations
+            g = e.generators[0]
+            items = []
+            for x in g.iter.elts:
+                inner = dict(env)
+                inner[g.target.id] = self.ev(x, env)
+                items.append(self.ev(e.elt, inner))
+            return Seq(items)
         if isinstance(e, ast.Subscript):
             base = self.ev(e.value, env)
             if isinstance(base, Seq) and isinstance(e.slice, ast.Constant):
@@ -300,6 +312,18 @@ class BitInterp(object):
                 if a.zero_from(k):
                     # v - 2**k with v < 2**k: low bits kept, the rest all 1
                     return BV(a.bits[:k] + [1] * (N - k), 1)
+            return BV.top()
+        if isinstance(op, ast.Sub) and not b.is_const():
+            # a - b where b is one (possibly set) bit d at position j and a
+            # has no bits at or above j: a when d = 0, a - 2**j when d = 1,
+            # i.e. the bits of a below j and d at every position from j on
+            # (two's complement reading of a field whose top bit is d)
+            nz = [i for i, x in enumerate(b.bits) if x != 0]
+            if b.hi == 0 and len(nz) == 1 and a.zero_from(nz[0]) and \
+                    b.bits[nz[0]] != TOP:
+                j = nz[0]
+                d = b.bits[j]
+                return BV(a.bits[:j] + [d] * (N - j), d)
             return BV.top()
         if isinstance(op, ast.Add) and a.is_const() is False and \
                 b.is_const() is False:
